@@ -213,23 +213,21 @@ pub fn c14(tier: &str, seed: u64) -> Check {
     let thorough = tier == "thorough";
     let mut spaces = Vec::new();
     if thorough {
+        spaces.push(c14_order_space(0, 300));
+        spaces.push(c14_complete_par_space(140, 66));
+        spaces.push(c14_biclique_space(40));
+    } else {
         spaces.push(c14_order_space(0, 130));
         spaces.push(c14_complete_par_space(70, 33));
-        spaces.push(c14_biclique_space(20));
-    } else {
-        spaces.push(c14_order_space(0, 40));
-        spaces.push(c14_order_space(63, 66));
-        spaces.push(c14_order_space(127, 130));
-        spaces.push(c14_complete_par_space(34, 17));
-        spaces.push(c14_biclique_space(8));
+        spaces.push(c14_biclique_space(16));
     }
     let report = super::report(
         "C14",
         tier,
         seed,
-        "exhaustive over the parameter ranges: every order 0..=40, 63..=66, 127..=130 (0..=130 thorough) × seven generators × four representations against closed-form arc sets (order 0 and wheel < 4 must panic) and against each other through the From conversions; AdjacencyList::complete(n) for every n ≤ 34 (70) × every worker count 1..=17 (33) and the Err answer; biclique(m, n) for every (m, n) ≤ 8 (20) incl. zeros; trivial/claw/utility. Non-trivial: order² not a multiple of 64 (bit matrix tail) / ragged last chunk / m != n.",
-        &["orders above 130 are not explored", "worker count through the cfg(graaf_verif) seam"],
-        json!({"orders": if thorough { json!("0..=130") } else { json!("0..=40, 63..=66, 127..=130") }}),
+        "exhaustive over the parameter ranges: every order 0..=130 (0..=300 thorough) × seven generators × four representations against closed-form arc sets (order 0 and wheel < 4 must panic) and against each other through the From conversions; AdjacencyList::complete(n) for every n ≤ 70 (140) × every worker count 1..=33 (66) and the Err answer; biclique(m, n) for every (m, n) ≤ 16 (40) incl. zeros; trivial/claw/utility. Non-trivial: order² not a multiple of 64 (bit matrix tail) / ragged last chunk / m != n.",
+        &["orders above 130 (300 thorough) are not explored", "worker count through the cfg(graaf_verif) seam"],
+        json!({"orders": if thorough { json!("0..=300") } else { json!("0..=130") }}),
     );
     Check { spaces, report, post: None }
 }
@@ -555,6 +553,37 @@ fn c16_conv_space(n: usize) -> Space {
     })
 }
 
+/// Orders where 2^(n(n-1)) is out of reach: every digraph with exactly one arc, and
+/// every digraph with one arc plus the last off-diagonal cell, at every order in
+/// `orders` (each 64-bit block of the bit matrix holding a single bit at every
+/// position, including bit 63).
+fn c16_single_arc_space(orders: &'static [usize]) -> Space {
+    let mut cases: Vec<(usize, usize, usize)> = Vec::new();
+    for &n in orders {
+        for u in 0..n {
+            for v in 0..n {
+                if u != v {
+                    cases.push((n, u, v));
+                }
+            }
+        }
+    }
+    let cases = Arc::new(cases);
+    Space::new("c16.single_arc", vec![orders.iter().map(|&x| x as u64).sum()], cases.len() as u64 * 2, format!("all conversions on every one-arc digraph (and one arc + the last off-diagonal arc) at orders {orders:?}"), move |idx, ctx| {
+        let (n, u, v) = cases[(idx / 2) as usize];
+        let mut abs = Abs::from_arcs(n, [(u, v)]);
+        if idx % 2 == 1 {
+            abs.a.insert((n - 1, n - 2));
+        }
+        conv_all(&abs, ctx);
+        if (u * n + v) % 64 == 63 || (u * n + v) % 64 == 0 {
+            ctx.nontrivial();
+            ctx.tag("single_bit_at_a_word_edge");
+        }
+        ctx.sample(|| json!({"digraph": abs.arcs_json(), "conversions": "12 + 8 + round trips"}));
+    })
+}
+
 /// every vector of `len` rows, each row a subset of 0..u (u = universe size)
 fn c16_rows_space(len: usize, u: usize) -> Space {
     let per = 1u64 << u;
@@ -690,11 +719,8 @@ fn c16_empty_rows() -> Space {
 pub fn c16(tier: &str, seed: u64) -> Check {
     let thorough = tier == "thorough";
     let mut spaces = Vec::new();
-    for n in 1..=4 {
+    for n in 1..=5 {
         spaces.push(c16_conv_space(n));
-    }
-    if thorough {
-        spaces.push(c16_conv_space(5));
     }
     spaces.push(c16_rows_space(1, 3));
     spaces.push(c16_rows_space(2, 4));
@@ -707,6 +733,9 @@ pub fn c16(tier: &str, seed: u64) -> Check {
         spaces.push(c16_arcs_space(4, 4));
     }
     spaces.push(c16_empty_rows());
+    static SQ: [usize; 14] = [5, 6, 7, 8, 9, 10, 11, 12, 13, 16, 17, 23, 24, 33];
+    static ST: [usize; 26] = [5, 6, 7, 8, 9, 10, 11, 12, 13, 14, 15, 16, 17, 18, 19, 20, 23, 24, 25, 31, 32, 33, 40, 48, 64, 65];
+    spaces.push(c16_single_arc_space(if thorough { &ST } else { &SQ }));
     let report = super::report(
         "C16",
         tier,
